@@ -1,11 +1,10 @@
 ----------------------------- MODULE MC_ChainDiag -----------------------------
 EXTENDS ChainDiag
-\* shapes <<M, N>> and negative numbers (cfg files cannot express sets of tuples / negative ints)
-ShapesQuick == {<<1, 4>>, <<1, 5>>, <<1, 6>>, <<2, 4>>}
-ShapesMid == {<<1, 7>>, <<2, 5>>, <<3, 4>>}
-ShapesBig == {<<1, 8>>, <<2, 6>>}
-ShapesNeg == {<<1, 4>>, <<2, 4>>}
+\* shapes <<M, N, V>> and negative numbers (cfg files cannot express sets of tuples / negative ints)
+ShapesQuick == {<<1, 4, 3>>, <<1, 5, 3>>, <<1, 6, 3>>, <<2, 4, 2>>}
+ShapesMid == {<<1, 7, 3>>, <<2, 4, 3>>, <<2, 5, 3>>, <<2, 6, 2>>, <<3, 4, 2>>, <<1, 5, 4>>}
+ShapesNeg == {<<1, 4, 3>>, <<2, 4, 2>>}
 MCShifts == {-3, 5}
 MCScales == {-1, 2, 3}
-MCVals == {0, 1, 2}
+MCScalesQuick == {-1, 2}
 =============================================================================
